@@ -24,6 +24,7 @@ func init() {
 			{Name: "aboveall-minus-one", File: "pkg/time/cut.go", Old: "\tif that == aboveAllInstance {\n\t\treturn 0\n\t}\n\treturn 1", New: "\tif that == aboveAllInstance {\n\t\treturn 0\n\t}\n\treturn -1", Expect: "R18.2"},
 			{Name: "below-after-above", File: "pkg/time/cut.go", Old: "\t} else if thisIsAbove {\n\t\treturn 1", New: "\t} else if !thisIsAbove {\n\t\treturn 1", Expect: "R18.2"},
 			{Name: "closed-upper-bound", File: "pkg/time/cut.go", Old: "\t\treturn cutBelow(p.StartTime), cutBelow(p.EndTime)", New: "\t\treturn cutBelow(p.StartTime), cutAbove(p.EndTime)", Expect: "R18.2"},
+			{Name: "latest-compared-with-earliest", File: "pkg/trait/electricpb/modepb/sum.go", Old: "if latest.IsZero() || st.After(latest) {", New: "if latest.IsZero() || st.After(earliest) {", Expect: "R18.5"},
 			{Name: "shift-edits-input", File: "pkg/trait/electricpb/segmentpb/shift.go", Old: "\t\t\tfirst = proto.Clone(first).(*traits.ElectricMode_Segment) // clone so we don't update the original\n", New: "\t\t\t_ = proto.Clone\n", Expect: "R18.4"},
 			{Name: "revert-F18-difference", File: "pkg/time/timestamp.go", Old: "\tcase t1.Nanos > t2.Nanos:\n\t\treturn 1\n\t}\n\treturn 0", New: "\tcase t1.Nanos > t2.Nanos:\n\t\treturn 1\n\t}\n\treturn int(t1.Nanos - t2.Nanos)", Expect: "R18.1"},
 			{Name: "cmp-compare-idiom", Silent: true, File: "pkg/time/timestamp.go", Old: "\tswitch {\n\tcase t1.Seconds < t2.Seconds:\n\t\treturn -1\n\tcase t1.Seconds > t2.Seconds:\n\t\treturn 1\n\tcase t1.Nanos < t2.Nanos:\n\t\treturn -1\n\tcase t1.Nanos > t2.Nanos:\n\t\treturn 1\n\t}\n\treturn 0", New: "\tif t1.Seconds != t2.Seconds {\n\t\tif t1.Seconds < t2.Seconds {\n\t\t\treturn -1\n\t\t}\n\t\treturn 1\n\t}\n\tif t1.Nanos < t2.Nanos {\n\t\treturn -1\n\t}\n\tif t1.Nanos > t2.Nanos {\n\t\treturn 1\n\t}\n\treturn 0"},
@@ -36,6 +37,7 @@ func runC18(c *an.Ctx) {
 	r182(c)
 	r183(c)
 	r184(c)
+	r185(c)
 	c.Min("R18.1", 2)
 	c.Min("R18.2", 10)
 	c.Min("R18.3", 4)
@@ -127,6 +129,19 @@ func r181(c *an.Ctx) {
 			why = fmt.Sprintf("on the path %v the result is %d, expected %d", l.Assign, got, want)
 		}
 	}
+	// the order must come from the fields themselves: conversions with a limited range are not chronological
+	lossy := ""
+	an.Instrs(fn, func(in ssa.Instruction) {
+		call, ok := in.(*ssa.Call)
+		if !ok {
+			return
+		}
+		switch n := an.CalleeName(call); n {
+		case "(time.Time).UnixNano", "(time.Time).UnixMicro", "(time.Time).Sub", "(time.Duration).Nanoseconds":
+			lossy = n + " at " + c.Prog.Rel(call.Pos())
+		}
+	})
+	c.Check(lossy == "", rule, name+"|compares the timestamp fields, not a range-limited conversion", fn.Pos(), "", "the comparison goes through "+lossy+", whose int64 nanosecond range covers only the years 1678-2262 (time.Time.Sub saturates): timestamps outside it wrap or saturate and the order is no longer chronological")
 	if decided == 0 {
 		c.Note("R18.1: the sign of CompareAscending is computed by an idiom the decision tree cannot interpret; only the value set is decided")
 		c.Ok(rule, name+"|sign follows seconds, then nanos", fn.Pos(), "not decided for this idiom (value set only)")
@@ -507,5 +522,97 @@ func sortStrings(s []string) {
 		for j := i; j > 0 && s[j] < s[j-1]; j-- {
 			s[j], s[j-1] = s[j-1], s[j]
 		}
+	}
+}
+
+// r185: running minimum / maximum accumulators are compared with themselves. A loop variable `acc`
+// that takes the value x under x.Before(other) / x.After(other) (or x < other / x > other) where `other`
+// is a different loop variable is a slip of the variable.
+func r185(c *an.Ctx) {
+	const rule = "R18.5"
+	n := 0
+	varName := func(v ssa.Value) string {
+		if ph, ok := v.(*ssa.Phi); ok {
+			return ph.Comment
+		}
+		if u, ok := v.(*ssa.UnOp); ok && u.Op == token.MUL {
+			if al, isAl := u.X.(*ssa.Alloc); isAl {
+				return al.Comment
+			}
+		}
+		return ""
+	}
+	for _, rel := range []string{"pkg/time", "pkg/trait/electricpb/segmentpb", "pkg/trait/electricpb/modepb"} {
+		for _, fn := range c.Prog.FuncsIn(rel) {
+			if c.Prog.IsGenerated(fn.Pos()) {
+				continue
+			}
+			an.Instrs(fn, func(in ssa.Instruction) {
+				ph, ok := in.(*ssa.Phi)
+				if !ok || ph.Comment == "" {
+					return
+				}
+				for i, x := range ph.Edges {
+					if x == ssa.Value(ph) || varName(x) == ph.Comment {
+						continue
+					}
+					pred := ph.Block().Preds[i]
+					// the conditions that select this edge: If-predecessors of the assignment block whose
+					// taken (true) branch is that block (covers `p || q` where either operand selects it)
+					type sel struct {
+						iff *ssa.If
+					}
+					var sels []sel
+					u := pred
+					for depth := 0; depth < 3 && len(u.Preds) == 1; depth++ {
+						if _, isIf := u.Preds[0].Instrs[len(u.Preds[0].Instrs)-1].(*ssa.If); isIf {
+							break
+						}
+						u = u.Preds[0]
+					}
+					for _, q := range u.Preds {
+						if iff, isIf := q.Instrs[len(q.Instrs)-1].(*ssa.If); isIf && q.Succs[0] == u {
+							sels = append(sels, sel{iff})
+						}
+					}
+					for _, sl := range sels {
+						e := an.CondEdge{If: sl.iff, Branch: true}
+						var a, b ssa.Value
+						kind := ""
+						switch cond := e.If.Cond.(type) {
+						case *ssa.Call:
+							nm := an.CalleeName(cond)
+							if (nm == "(time.Time).Before" || nm == "(time.Time).After") && len(cond.Call.Args) == 2 && e.Branch {
+								a, b = cond.Call.Args[0], cond.Call.Args[1]
+								kind = map[string]string{"(time.Time).Before": "minimum", "(time.Time).After": "maximum"}[nm]
+							}
+						case *ssa.BinOp:
+							if (cond.Op == token.LSS || cond.Op == token.GTR) && e.Branch {
+								a, b = cond.X, cond.Y
+								kind = map[token.Token]string{token.LSS: "minimum", token.GTR: "maximum"}[cond.Op]
+							}
+						}
+						if a == nil || a != x {
+							continue
+						}
+						other := varName(b)
+						if other == "" {
+							continue
+						}
+						// `other` must itself be a loop variable (a phi of this function)
+						if _, isPhi := b.(*ssa.Phi); !isPhi {
+							continue
+						}
+						n++
+						c.SawFunc(an.FuncName(fn))
+						c.Check(other == ph.Comment, rule, fmt.Sprintf("%s|running %s `%s` compares with itself", an.FuncName(fn), kind, ph.Comment), e.If.Pos(), "",
+							fmt.Sprintf("`%s` takes a new value under a comparison with `%s`, a different loop variable: it does not end up as the %s of the values seen", ph.Comment, other, kind))
+					}
+				}
+			})
+		}
+	}
+	if n == 0 {
+		c.Note("R18.5: no running minimum/maximum found")
 	}
 }
